@@ -5,6 +5,7 @@
 // Prints op/observation lines for the Lean model (Qx.Model.C09Sm) and evaluates the property itself
 // (oracle, own bookkeeping, independent of the model).
 #include "common.h"
+#include "QXmppIq.h"
 #include "QXmppOutgoingClient.h"
 #include "QXmppOutgoingClient_p.h"
 #include "QXmppPacket_p.h"
@@ -93,6 +94,7 @@ enum HMode { HExact, HStale, HBeyond };
 
 struct Pkt {
     bool stanza = false;
+    bool iq = false;  // tracked request sent with sendIq(): its delivery report is consumed by the IQ manager, not observable
     int reports = 0;
     long seq = 0;  // oracle's own numbering (0 = never stored)
     std::optional<QXmppTask<SendResult>> task;
@@ -115,6 +117,7 @@ struct Env {
     long recvOn = 0, strayLegit = 0, strayPhantom = 0;  // stanzas injected since the last <enabled/>
     bool inAckOp = false;
     long curH = 0;
+    std::vector<int> outstanding;  // tracked IQ requests whose IqResult task has not finished, oldest first
     std::string history;
     std::string trace;  // op => observation, for the evidence samples
 
@@ -141,6 +144,7 @@ struct Env {
         fs->down();
         delete c;  // ~QXmppOutgoingClient -> resetCache(): every pending packet gets its (single) report
         for (size_t i = 0; i < pk.size(); i++) {
+            if (pk[i].iq) continue;
             if (pk[i].reports != 1) oracleFail(pk[i].reports == 0 ? "C09:report:lost" : "C09:report:twice", history + " [teardown P" + std::to_string(i) + "]");
             else oraclePass()++;
         }
@@ -160,7 +164,7 @@ struct Env {
     void onWrite(const QByteArray &d)
     {
         if (d.startsWith("<?xml") || d.startsWith("<stream:stream")) return;  // stream header: not SM relevant
-        if (d.startsWith("<message id='P") || d.startsWith("<nz id='P")) {
+        if (d.startsWith("<message id='P") || d.startsWith("<nz id='P") || d.startsWith("<iq id=\"P")) {
             int id = atoi(attr(d, "id").c_str() + 1);
             ev.push_back("P" + std::to_string(id));
             wirePkts.push_back(id);
@@ -242,7 +246,7 @@ struct Env {
         int id = (int)pk.size();
         bool en = sam().enabled();
         QByteArray data = (stanza ? "<message id='P" : "<nz id='P") + QByteArray::number(id) + "'/>";
-        pk.push_back(Pkt { stanza, 0, 0, std::nullopt });
+        pk.push_back(Pkt { stanza, false, 0, 0, std::nullopt });
         if (en && stanza) { pend.push_back(id); pk[id].seq = ++myLastOut; }
         auto res = sam().internalSend(QXmppPacket(data, stanza));
         pk[id].task.emplace(std::get<1>(res));
@@ -254,10 +258,55 @@ struct Env {
         else oraclePass()++;
         line(op);
     }
+    // a tracked request through the public API (QXmppClient::sendIq -> QXmppOutgoingClient::sendIq -> OutgoingIqManager)
+    void sendIq(bool forceDown)
+    {
+        std::string op = std::string("sendIq ") + ud(forceDown);
+        history += "{" + op + "}";
+        if (forceDown && connected) fs->down();
+        int id = (int)pk.size();
+        bool en = sam().enabled();
+        pk.push_back(Pkt { true, true, 0, 0, std::nullopt });
+        if (en) { pend.push_back(id); pk[id].seq = ++myLastOut; }
+        QXmppIq iq(QXmppIq::Get);
+        iq.setId(QStringLiteral("P") + QString::number(id));
+        iq.setTo(QStringLiteral("srv.example"));
+        outstanding.push_back(id);
+        c->sendIq(std::move(iq)).then(ctx.get(), [this, id](QXmppOutgoingClient::IqResult &&) {
+            outstanding.erase(std::remove(outstanding.begin(), outstanding.end(), id), outstanding.end());
+        });
+        if (forceDown && connected) fs->up();
+        line(op);
+    }
+    // an IQ response arriving like any other traffic (handlePacketReceived -> handleElement): it is a stanza of the session
+    void recvIqResponse(char which)
+    {
+        bool stanzaOn = sam().enabled();
+        if (stanzaOn) recvOn++;
+        else if (connected) strayLegit++;
+        else strayPhantom++;
+        if (outstanding.empty()) {  // unsolicited response with an unknown id
+            inject(docs->iq);
+            line("recv i");
+            return;
+        }
+        int id = which == 'r' ? outstanding.front() : outstanding.back();
+        QByteArray sid = "P" + QByteArray::number(id);
+        size_t before = outstanding.size();
+        if (which == 'r')
+            inject(parseDoc("<iq xmlns='jabber:client' type='result' from='srv.example' id='" + sid + "'/>"));
+        else
+            inject(parseDoc("<iq xmlns='jabber:client' type='error' from='srv.example' id='" + sid + "'><error type='cancel'><item-not-found xmlns='urn:ietf:params:xml:ns:xmpp-stanzas'/></error></iq>"));
+        if (outstanding.size() != before - 1) { fprintf(stderr, "harness: IQ response did not finish the request\n"); exit(3); }
+        stat(which == 'r' ? "iq_result_matched" : "iq_error_matched");
+        line(which == 'r' ? "recv iqr" : "recv iqe");
+    }
     void afterAck(long h)
     {
         // liveness half ("confirmed when acked"): everything numbered <= h is confirmed now
-        for (int id : pend) if (pk[id].seq <= h) { oracleFail("C09:ack:covered-not-confirmed", history); return; }
+        for (int id : pend) if (!pk[id].iq && pk[id].seq <= h) { oracleFail("C09:ack:covered-not-confirmed", history); return; }
+        // the report of a tracked IQ request goes to the IQ manager; by the property it is confirmed now
+        pend.erase(std::remove_if(pend.begin(), pend.end(), [&](int id) { return pk[id].iq && pk[id].seq <= h; }), pend.end());
         oraclePass()++;
     }
     void ack(HMode m)
@@ -300,6 +349,7 @@ struct Env {
     void resetCache()
     {
         sam().resetCache();
+        pend.erase(std::remove_if(pend.begin(), pend.end(), [&](int id) { return pk[id].iq; }), pend.end());
         if (!pend.empty()) oracleFail("C09:report:lost", history); else oraclePass()++;
         line("clearCache");
     }
@@ -380,6 +430,10 @@ struct Env {
         else if (sym == "q") req(false);
         else if (sym == "qd") req(true);
         else if (sym == "m" || sym == "p" || sym == "i" || sym == "x") recv(sym[0]);
+        else if (sym == "I") sendIq(false);
+        else if (sym == "Id") sendIq(true);
+        else if (sym == "Jr") recvIqResponse('r');
+        else if (sym == "Je") recvIqResponse('e');
         else if (sym == "L") { if (connected) closed(); else { history += "(already down)"; } }
         else if (sym == "E") reconnectScript(PolE, HExact, false);
         else if (sym == "Ed") reconnectScript(PolE, HExact, true);
@@ -436,6 +490,8 @@ int main(int argc, char **argv)
 
     // corpus first: the witness of the (fixed) finding C09:h:counts-stanzas-received-without-sm and a few hand-picked histories
     runSeq({ "E", "N", "m", "R=" }, true);                // witness of the defect fixed by repo commit 6d4ec74: <resume h/> counted a stanza received on a session without SM
+    runSeq({ "E", "I", "Jr", "q" }, true);                // a response to a tracked request is a stanza of the session: <a h=1/>
+    runSeq({ "E", "I", "I", "Je", "L", "R=", "Jr", "q" });
     runSeq({ "E", "F", "p", "i", "q", "R-", "q" });
     runSeq({ "E", "s", "s", "s", "a-", "L", "s", "R-", "a=" }, true);
     runSeq({ "E", "s", "d", "s", "L", "E", "a-", "a=" });
@@ -444,7 +500,8 @@ int main(int argc, char **argv)
 
     const std::vector<std::string> core9 = { "s", "a=", "a-", "q", "m", "x", "L", "R-", "E" };
     const std::vector<std::string> core7 = { "s", "a-", "q", "m", "L", "R-", "E" };
-    const std::vector<std::string> wide = { "s", "d", "n", "a=", "a-", "a+", "q", "m", "p", "i", "x", "L", "E", "R=", "R-", "R+", "N", "F", "C" };
+    const std::vector<std::string> core11 = { "s", "I", "Jr", "a=", "a-", "q", "m", "x", "L", "R-", "E" };
+    const std::vector<std::string> wide = { "s", "d", "n", "I", "Jr", "Je", "a=", "a-", "a+", "q", "m", "p", "i", "x", "L", "E", "R=", "R-", "R+", "N", "F", "C" };
     if (a.mode == "bench") {
         stat("exh_core9", enumerate(core9, 4));
         finish();
@@ -453,18 +510,19 @@ int main(int argc, char **argv)
     if (thorough) {
         stat("exh_core7_depth7", enumerate(core7, 7));
         stat("exh_core9_depth6", enumerate(core9, 6));
-        stat("exh_wide19_depth4", enumerate(wide, 4));
+        stat("exh_core11_depth5", enumerate(core11, 5));
+        stat("exh_wide22_depth4", enumerate(wide, 4));
         // from a session that already holds two stored stanzas (the second one with a failed write)
         stat("exh_prefixEsd_core9_depth6", enumerate(core9, 6, { "E", "s", "d" }));
     } else {
-        stat("exh_core9_depth5", enumerate(core9, 5));
-        stat("exh_wide19_depth3", enumerate(wide, 3));
+        stat("exh_core11_depth5", enumerate(core11, 5));
+        stat("exh_wide22_depth3", enumerate(wide, 3));
         stat("exh_prefixEsd_core9_depth5", enumerate(core9, 5, { "E", "s", "d" }));
     }
 
     // seeded random histories up to 60 symbols, including failed writes during every kind of operation
     std::vector<std::string> rnd = wide;
-    for (auto s : { "s", "s", "s", "a=", "a-", "m", "q", "nd", "qd", "Ed", "R-d", "R-", "E", "L" }) rnd.push_back(s);
+    for (auto s : { "s", "s", "s", "a=", "a-", "m", "q", "nd", "qd", "Ed", "R-d", "R-", "E", "L", "I", "I", "Id", "Jr", "Jr", "Je" }) rnd.push_back(s);
     Rng rng(a.seed);
     int nrand = thorough ? 40000 : 4000;
     for (int i = 0; i < nrand; i++) {
